@@ -119,7 +119,7 @@ CHECKS = [
         "files are 0..n-1 without gaps, the final partial batch is flushed on cancel, an idle flush creates no file (C19_runtime*). "
         "C19_timer_refuted is the known finding D17. Correspondence: line streams with lengths straddling the limit, schema changes, a malformed "
         "line at every position; CollectRuntime runs with jittered cancellation incl. parallel collectors, files read back.",
-        "Trusted: OS, timers and file system are observed, not modelled; Extended-JSON parsing is the library's (its own parse of every line is "
+        "Known finding C19-json-type-change (an error on a well-formed stream in which a number changes its BSON type between lines; reported when such cases reproduce it). Trusted: OS, timers and file system are observed, not modelled; Extended-JSON parsing is the library's (its own parse of every line is "
         "handed to the model). Known finding D17: the flush timer firing early returns a shortened result with nil error. Follow mode not covered. "
         "Documents without numeric leaves that the dynamic collector cannot tell apart are outside docs_ok.",
         "Coq proof (event-machine invariants, composition with C08) + differential correspondence",
@@ -233,7 +233,7 @@ CHECKS = [
         "C07_writer_collector_is_sdyn (every NewWriterCollector history is the streaming-dynamic history of the translated operations), "
         "C07_sampling_zero_is_identity / C07_sampling_long_first_only / C07_sampling_inner_history / C07_sampling_never_invents "
         "(NewSamplingCollector over an explicit clock) justify how the histories through those two entry points are evaluated.",
-        "Trusted: as C01. 'only the last chunk of a schema run may hold fewer' is proved as exact chunk sizes for the schema-aware kinds on pure Add "
+        "Known finding C07-same-types-other-keys (reported as KNOWN-FINDING when the three fixed histories tagged 'renamed' reproduce it): the collectors that are not schema-aware store a document with the chunk's metric types and other key names under the chunk's names. Trusted: as C01. 'only the last chunk of a schema run may hold fewer' is proved as exact chunk sizes for the schema-aware kinds on pure Add "
         "sequences (C08_dynamic), for general histories only the upper bound is proved. Documents the collector cannot tell apart (same metric count "
         "and types, for schema-aware kinds same key paths) are assumed to have one schema.",
         "Coq proof (invariant over collector state and writer log for all kinds, induction over histories) + differential correspondence",
@@ -277,7 +277,7 @@ CHECKS = [
         "concurrently; no deadlock and bounded critical sections; the drainer's schedule-point trace is a path of its automaton. Correspondence: "
         "G producers x M samples with observers, buffer sizes 0..3, GOMAXPROCS varied, stalls at the drainer's schedule points; the driver must "
         "explain every observed run by a witness schedule executed with the extracted step function; -race build in the thorough tier.",
-        "Trusted: Go runtime semantics of channels, select, context, sync.RWMutex (the LTS); writer preference of RWMutex omitted (adds "
+        "Both tiers repeat their schedules under the Go race detector (quick: one repetition). Trusted: Go runtime semantics of channels, select, context, sync.RWMutex (the LTS); writer preference of RWMutex omitted (adds "
         "interleavings only). 'No data races' as such cannot be exhibited by a Gallina model: carried by the lock-discipline theorem and the race "
         "detector (thorough tier), labelled partial. Termination is stated for quiescent states; the never-exiting drainer is outside the wording.",
         "Coq proof (inductive invariants over all schedules) + witness-schedule correspondence against the real collectors",
